@@ -51,11 +51,28 @@ def dt_spec(name):
     return [d.itemsize * 8, d.kind == 'i']
 
 
+def values_of(spec):
+    """the integer values of an array spec as a (T, F) ndarray: explicit `rows`, or - for long streams - the
+    generated pattern `(t * mul + 3 f) % mod` with a few overridden cells `over = [[t, f, value], ...]`"""
+    T, F = spec['T'], spec['F']
+    if 'rows' in spec:
+        return np.array(spec['rows'], dtype=object).reshape(T, F) if T * F else np.zeros((T, F), dtype=object)
+    g = spec['gen']
+    v = (np.arange(T, dtype=np.int64)[:, None] * g['mul'] + 3 * np.arange(F, dtype=np.int64)[None, :]) % g['mod']
+    for t, f, val in spec.get('over', []):
+        v[t, f] = val
+    return v
+
+
+def rows_of(spec):
+    return spec['rows'] if 'rows' in spec else values_of(spec).tolist()
+
+
 def build_array(spec):
     """spec = {'rows': [[..]], 'T':, 'F':, 'dtype':, 'layout':, 'one_d': bool} -> numpy array (a view for
     strided / reversed layouts; the surrounding memory holds ids that are out of every declared range)"""
     T, F, dt = spec['T'], spec['F'], np.dtype(spec['dtype'])
-    vals = np.array(spec['rows'], dtype=object).reshape(T, F) if T * F else np.zeros((T, F), dtype=object)
+    vals = values_of(spec)
     info = np.iinfo(dt)
     junk = info.max                      # an id no declared range contains (ranges here are < max)
     layout = spec.get('layout', 'C')
@@ -85,7 +102,7 @@ def build_array(spec):
 
 
 def model_arr(spec):
-    return {'rows': spec['rows'], 'T': spec['T'], 'F': spec['F'], 'dt': dt_spec(spec['dtype'])}
+    return {'rows': rows_of(spec), 'T': spec['T'], 'F': spec['F'], 'dt': dt_spec(spec['dtype'])}
 
 
 _CTL = []
@@ -147,9 +164,9 @@ def call_jc(case):
 
 def oracle_counts(case):
     """brute force: the property's own words (valid inputs only)"""
-    X = np.array(case['X']['rows'], dtype=object).reshape(case['X']['T'], case['X']['F'])
+    X = values_of(case['X'])
     Ys = case.get('Y') or case['X']
-    Y = np.array(Ys['rows'], dtype=object).reshape(Ys['T'], Ys['F'])
+    Y = values_of(Ys)
     nx = case.get('n_x')
     ny = case.get('n_y')
     if nx is None:
@@ -158,6 +175,8 @@ def oracle_counts(case):
         ny = nx
     elif ny is None:
         ny = int(max(Y.ravel())) + 1
+    if X.shape[0] > 2000:                  # long streams: numpy scatter-add instead of the Python triple loop
+        return oracle_counts_fast(X.astype(np.int64), Y.astype(np.int64), nx, ny)
     o = np.zeros((X.shape[1], Y.shape[1], nx, ny), dtype=np.int64)
     for t in range(X.shape[0]):
         for x in range(X.shape[1]):
@@ -345,6 +364,64 @@ def gen_jc_special(rng, idx):
         else:
             case.update(X=one, Y=many, n_x=3, n_y=2)
         case['wide'] = True
+    return case
+
+
+def width_pairs():
+    """(wide dtype, narrow dtype) for every pair of integer dtypes of different width"""
+    return [(w, n) for w in DTYPES for n in DTYPES if np.dtype(w).itemsize > np.dtype(n).itemsize]
+
+
+def foreign_ids(wide, narrow, n):
+    """out-of-range ids built from dtype bounds and powers of two (+0, +1, +2, and + a residue inside the
+    declared range), representable in the wide dtype"""
+    hi = np.iinfo(np.dtype(wide)).max
+    cand = {n, n + 1}
+    for b in (np.iinfo(np.dtype(narrow)).max, 2 ** 7, 2 ** 8, 2 ** 15, 2 ** 16, 2 ** 31, 2 ** 32):
+        for d in (0, 1, 2, n - 1, n):
+            cand.add(b + d)
+    for k in (8, 16, 32):
+        cand.add(3 * 2 ** k + 1)
+    return sorted(v for v in cand if n <= v <= hi)
+
+
+def gen_long_case(rng, idx, malformed):
+    """mixed-width dtypes with the wide array at least 1 MiB (or just below): a malformed stream carries one
+    foreign id in the WIDE array; a valid one has ids up to n - 1 with n around the narrow dtype's maximum"""
+    pairs = width_pairs()
+    wide, narrow = pairs[idx % len(pairs)]
+    wide_is_x = (idx // len(pairs)) % 2 == 0 if malformed else bool(rng.integers(0, 2))
+    isz = np.dtype(wide).itemsize
+    F = 1 if rng.random() < 0.8 else 2
+    below = rng.random() < 0.15
+    T = (2 ** 20) // (isz * F) + (int(rng.integers(0, 40)) if not below else -int(rng.integers(1, 40)))
+    nmax = int(np.iinfo(np.dtype(narrow)).max)
+    if malformed:
+        n_wide = int(rng.integers(2, 6))
+        n_narrow = int(rng.integers(1, 5))
+    else:
+        n_wide = int(rng.choice([3, nmax - 1, nmax, nmax + 1, nmax + 2])) if nmax <= 255 else int(rng.integers(2, 7))
+        n_narrow = int(rng.integers(1, 5))
+    W = {'gen': {'mul': int(rng.choice([1, 7, 11])), 'mod': n_wide}, 'T': T, 'F': F, 'dtype': wide,
+         'layout': str(rng.choice(LAYOUTS)), 'over': []}
+    N = {'gen': {'mul': int(rng.choice([1, 5])), 'mod': n_narrow}, 'T': T, 'F': 1, 'dtype': narrow,
+         'layout': str(rng.choice(LAYOUTS)), 'over': []}
+    case = {'threads': int(rng.integers(1, 17)), 'long': True, 'wide': True,
+            'pair': '%s/%s' % (wide, narrow), 'below_1MiB': bool(below)}
+    if malformed:
+        ids = foreign_ids(wide, narrow, n_wide)
+        fid = int(ids[int(rng.integers(0, len(ids)))])
+        W['over'] = [[int(rng.integers(0, T)), int(rng.integers(0, F)), fid]]
+        case.update(kind='malformed', why='long-mixed-width-foreign-id', foreign=fid)
+    else:
+        W['over'] = [[int(rng.integers(0, T)), 0, n_wide - 1]]       # the top state is visited
+        case.update(kind='jc')
+    # explicit counts, or the default on the narrow side (the default of the wide side would cover the foreign id)
+    n_narrow_arg = None if rng.random() < 0.3 else n_narrow
+    if wide_is_x:
+        case.update(X=W, Y=N, n_x=n_wide, n_y=n_narrow_arg)
+    else:
+        case.update(X=N, Y=W, n_x=n_narrow_arg, n_y=n_wide)
     return case
 
 
@@ -765,6 +842,9 @@ def jc_tags(case):
         tags.append('wide-ids')
     if case.get('special'):
         tags.append('special=' + case['special'])
+    if case.get('long'):
+        tags += ['long-mixed-width', 'long-pair=' + case['pair'],
+                 'long-below-1MiB' if case.get('below_1MiB') else 'long>=1MiB']
     tags += ['args-' + case.get('argstyle', 'pos'), 'n-kind=' + case.get('n_kind', 'pyint')]
     if case.get('Y') is None and case.get('n_y') is not None:
         tags.append('self-with-unused-n_y')
@@ -786,7 +866,7 @@ def check_jc_case(ctx, case, got, model):
     if not_run(ctx, got):
         return None
     ref = oracle_counts(case)
-    flat = [v for r in case['X']['rows'] for v in r]
+    flat = [v for r in case['X']['rows'] for v in r] if 'rows' in case['X'] else [0, 1]
     ctx.case(case, nontrivial=len(set(flat)) > 1 or case['X']['T'] > 1, tags=jc_tags(case))
     if 'crash' in got:
         ctx.violation('joint counts of a valid stream crashed or hung the process (%s)' % got['crash'], case)
@@ -822,7 +902,9 @@ def check_malformed(ctx, case, got, model):
         return
     ctx.case(case, nontrivial=True, tags=['malformed', 'why=' + case['why'],
                                           'entry=' + case.get('entry', 'joint_counts'),
-                                          'dtype-x=' + case['X']['dtype']])
+                                          'dtype-x=' + case['X']['dtype']] +
+             (['long-pair=' + case['pair'], 'long-below-1MiB' if case.get('below_1MiB') else 'long>=1MiB']
+              if case.get('long') else []))
     if 'crash' in got:
         ctx.violation('malformed stream (%s) crashed or hung the process (%s): out-of-bounds access'
                       % (case['why'], got['crash']), case)
@@ -831,7 +913,9 @@ def check_malformed(ctx, case, got, model):
         ctx.violation('malformed stream (%s) was accepted: table of shape %s with %s counts'
                       % (case['why'], got.get('shape'), got.get('total')), case)
         return
-    if model.get('error') != got['error']:
+    if model is None:
+        ctx.tag('model-skipped-long-input')
+    elif model.get('error') != got['error']:
         ctx.disagreement('Model.Info guard stage vs real code on a malformed stream (%s): model %s, code %s'
                          % (case['why'], _short(model), got['error']), case)
 
@@ -1763,8 +1847,8 @@ def jc_pipeline(ctx, cases, n_mi, n_sched):
     """valid streams: kernel calls in the child; tables vs brute force vs model; MI laws on the real tables.
     Returns False when the kernel crashed (then nothing else is run in this process)."""
     def table_cells(c):
-        nx = c.get('n_x') or (max(max(r) for r in c['X']['rows']) + 1)
-        ny = nx if c.get('Y') is None else (c.get('n_y') or (max(max(r) for r in c['Y']['rows']) + 1))
+        nx = c.get('n_x') or (int(values_of(c['X']).max()) + 1)
+        ny = nx if c.get('Y') is None else (c.get('n_y') or (int(values_of(c['Y']).max()) + 1))
         return c['X']['F'] * (c['X']['F'] if c.get('Y') is None else c['Y']['F']) * nx * ny
     def cheap(c):
         # the model's table is a closure over the schedule: a lookup costs O(#steps)
@@ -1817,6 +1901,8 @@ def run(ctx):
     cases = [gen_jc_case(rng, i) for i in range(ctx.n(230, 5000))]
     cases += [gen_wide_case(rng) for _ in range(ctx.n(40, 400))]
     cases += [gen_jc_special(rng, i) for i in range(ctx.n(24, 160))]
+    off = int(rng.integers(0, 1000))
+    cases += [gen_long_case(rng, off + i, False) for i in range(ctx.n(6, 48))]     # valid, long, mixed widths
     ok, _ = jc_pipeline(ctx, cases, ctx.n(90, 3000), ctx.n(60, 2000))
     lap('jc+mi-laws+sched')
     if not ok:
@@ -1827,6 +1913,12 @@ def run(ctx):
     # 2. malformed streams (child process)
     bad = [gen_malformed(rng, i) for i in range(ctx.n(120, 2400))]
     mresp = ctx.driver([jc_request(c) for c in bad])
+    # long mixed-width streams with one foreign id in the wide array (every width pair, both sides over the
+    # seeds); the model sees the first few (a million-row request each), the rest only must raise
+    longbad = [gen_long_case(rng, off + i, True) for i in range(ctx.n(14, 96))]
+    n_model = ctx.n(4, 12)
+    mresp += ctx.driver([jc_request(c) for c in longbad[:n_model]]) + [None] * (len(longbad) - n_model)
+    bad += longbad
     got = run_in_child(bad)
     for c, g, m in zip(bad, got, mresp):
         check_malformed(ctx, c, g, m)
